@@ -170,6 +170,18 @@ def run(case, drv) -> Outcome:
                 viol = viol or v(f'csm-callable:{name}', f'{name}(kdata, csm=<callable>) does not use the maps returned by the callable')
             elif rel(seen[0], want_coil) > TOL:
                 viol = viol or v(f'csm-callable-image:{name}', f'{name}: the coil images handed to the csm callable are not F^H W y (rel {rel(seen[0], want_coil):.2e})')
+    # ---- re-targeting a reconstruction to another acquisition of the same shape: Fourier operator AND density compensation are those
+    # of the new trajectory (multi-step history: construct, recalculate_fourierop, reconstruct)
+    if case['traj'] == 'radial' and noise is None and viol is None:
+        from mrpro.data.traj_calculators import KTrajectoryRadial2D
+
+        kd_b = type(kd)(kd.header, kd.data, KTrajectoryRadial2D(angle=math.pi * 0.381966)(kd.header))  # golden-angle spokes: other density
+        rec_a = DirectReconstruction(kd, csm=csm, noise=None)  # Fourier operator and dcf from the first acquisition
+        st_r, out_r = call(lambda: rec_a.recalculate_fourierop(kd_b)(kd_b))
+        st_f, out_f = call(lambda: DirectReconstruction(kd_b, csm=csm, noise=None)(kd_b))
+        if st_r == 'ok' and st_f == 'ok' and rel(out_r.data, out_f.data.reshape(-1).to(torch.complex128)) > TOL:
+            viol = viol or v('recalculate_fourierop', f'after recalculate_fourierop(kdata_b) the reconstruction of kdata_b differs from a reconstruction built for kdata_b '
+                                                      f'(rel {rel(out_r.data, out_f.data.reshape(-1).to(torch.complex128)):.2e}): F and W are not both those of the new trajectory')
     # ---- direct reconstruction = S^H F^H W y
     st, direct = call(lambda: DirectReconstruction(None, fourier_op=F, csm=csm, noise=noise, dcf=dcf)(kd))
     want_direct = A.conj().T @ (W @ yv)
